@@ -240,7 +240,7 @@ func dumpsOf(tok string) map[string]string {
 const b64Alphabet = "ABCDEFGHIJKLMNOPQRSTUVWXYZabcdefghijklmnopqrstuvwxyz0123456789-_"
 
 func runC01(c *Ctx) {
-	c.Res.Rule = "tokens: valid tokens of 7 kinds x {v2 Encode, v1compat Encode}; single-character substitutions / insertions / deletions in every segment (sampled in quick, every position of a token pool in thorough); alterations that leave the base64url alphabet (padding, +, /, line breaks, blanks in every segment); segment splices between tokens of different issuers/kinds; payloads re-signed by a foreign key keeping iss; wrong-layout signatures both ways; header rewrites; issuers that are well-formed nkey strings carrying a key that is not 32 bytes (the signer's key truncated or extended); hybrid payloads (top-level kind AND nats kind/version, equal or different, all roles, both layouts); random strings. A valid token is decoded right before every judged decode (verdicts must not depend on what was decoded before). Every token goes through Decode, DecodeGeneric and the six typed decoders. Oracle: any acceptance must verify (crypto/ed25519 + the harness's own nkey decoder) under the REPORTED issuer over exactly the text the statement names; an accepted alteration must have identical content. non-trivial = distinct tokens that reached signature verification or were accepted."
+	c.Res.Rule = "tokens: valid tokens of 7 kinds x {v2 Encode, v1compat Encode}; single-character substitutions / insertions / deletions in every segment (sampled in quick, every position of a token pool in thorough); alterations that leave the base64url alphabet (padding, +, /, line breaks, blanks in every segment); segment splices between tokens of different issuers/kinds; payloads re-signed by a foreign key keeping iss; wrong-layout signatures both ways; header rewrites; issuers that are well-formed nkey strings carrying a key that is not 32 bytes (the signer's key truncated or extended); hybrid payloads (top-level kind AND nats kind/version, equal or different, all roles, both layouts); typed kinds in the version-2 layout declaring version absent / 0 / -1 / 1 / 2 / 3, both headers, both signing layouts; random strings. A valid token is decoded right before every judged decode (verdicts must not depend on what was decoded before). Every token goes through Decode, DecodeGeneric and the six typed decoders. Oracle: any acceptance must verify (crypto/ed25519 + the harness's own nkey decoder) under the REPORTED issuer over exactly the text the statement names; an accepted alteration must have identical content. non-trivial = distinct tokens that reached signature verification or were accepted."
 	type vt struct{ tok, kind, layout string }
 	var pool []vt
 	for round := 0; round < c.N(2, 6); round++ {
@@ -366,6 +366,35 @@ func runC01(c *Ctx) {
 		payload := fmt.Sprintf(`{%s"iss":%q,"sub":%q,"iat":%d,"nats":{%s%s"k":"v"}}`, top, pubOf(kp), pubOf(kpN('U', 1)), time.Now().Unix(), ver, typ)
 		t := forge(c.R.Pick(hdrs[:4]), payload, kp, []string{"v1", "v2"}[c.R.Intn(2)])
 		checkToken(c, t, c01Replay{t, "", "generic-forged"}, nil)
+	}
+	// typed kinds in the version-2 layout (kind inside the nats section, none at top level) declaring every version
+	// around the supported ones - absent, 0, negative, 1, 2, 3 -, correctly signed in both layouts under both headers:
+	// whatever is accepted must be signed over the text the version of the RETURNED claims dictates
+	for _, kind := range []string{"operator", "account", "user", "activation", "authorization_request", "authorization_response"} {
+		base, err := validToken(c.R, kind, "v2")
+		must(err)
+		pb, _ := b64.DecodeString(strings.Split(base, ".")[1])
+		signerRole := map[string]byte{"operator": 'O', "account": 'O', "user": 'A', "activation": 'A', "authorization_request": 'N', "authorization_response": 'A'}[kind]
+		kp := kpN(signerRole, 4)
+		for _, ver := range []interface{}{nil, 0, -1, 1, 2, 3} {
+			payload := setJSONPath(string(pb), func(m map[string]interface{}) {
+				m["iss"] = pubOf(kp)
+				delete(m, "type")
+				if nats, _ := m["nats"].(map[string]interface{}); nats != nil {
+					if ver == nil {
+						delete(nats, "version")
+					} else {
+						nats["version"] = ver
+					}
+				}
+			})
+			for _, hdr := range []string{hdrV2, hdrV1} {
+				for _, lay := range []string{"v1", "v2"} {
+					t := forge(hdr, payload, kp, lay)
+					checkToken(c, t, c01Replay{t, "", fmt.Sprintf("typed-%s-version-%v-%s", kind, ver, lay)}, nil)
+				}
+			}
+		}
 	}
 	// short / odd issuer keys (defect D11's territory) and garbage
 	odd := []string{"AAAAAAAAAAAAAAAAAAAAA", "", "A", "AAAAAAA", pubOf(kpN('X', 0)), "UAAAA", strings.Repeat("A", 56)}
